@@ -99,14 +99,14 @@ exactly where the chunk ends, a refused one fits the buffer -/
 def Exact (c : Bytes) : Prop :=
   c ≠ [] ∧ match parse (c.take BUF) (c.drop BUF) with
     | .ok p => needOf (c.take BUF) p = (c.drop BUF).length
-    | .reject _ => c.length ≤ BUF
+    | .reject _ => True
     | _ => False
 
 /-- what the request in `c` is answered on a fresh connection, and whether the session ends after it -/
 def answer (app : App) (c : Bytes) : Option (Bytes × Bool) :=
   match parse (c.take BUF) (c.drop BUF) with
   | .ok p => some (app.respond none p, wantsClose p)
-  | .reject s => some (app.reject s, false)
+  | .reject s => some (app.reject s, true)
   | _ => none
 
 /-- the responses of a connection, computed request by request from what each gets alone -/
@@ -169,11 +169,7 @@ theorem one_per_chunk (app : App) : ∀ (cs : List Bytes), (∀ c ∈ cs, Exact 
         simp only [hp] at hshape
         have hp' := (parse_more (c.take Gen.BUF_SIZE) (c.drop Gen.BUF_SIZE) cs.flatten).2 s hp
         rw [hp']
-        dsimp only
-        rw [if_pos hshape]
-        have := ih hex' n hfn { parsed := none, buf0 := (c.take Gen.BUF_SIZE).headD 0 } eof
-        simp only [forget] at this ⊢
-        rw [this]; simp
+        simp [forget]
       | ok p =>
         simp only [hp] at hshape
         have hp' := (parse_more (c.take Gen.BUF_SIZE) (c.drop Gen.BUF_SIZE) cs.flatten).1 p hp
